@@ -235,8 +235,8 @@ def o1d(h):
     h.bounds('%d main-surface candidate edges (top of the %dx2 structured mesh) and one integration edge (a bottom edge) with its 2 Gauss points; all nodal coordinates '
              'and displacements symbolic (any geometry, collinear or kinked), connectivity concrete; every combination of per-(edge, point) signed distances' % (nM, nM + 1))
     h.outside('neighbour search (get_potential_interaction_list / min_dist_squared: argsort of squared distances), friction potential')
-    h.assume_note('stub: EdgeCpp.cpp_distance(edge, q) is replaced at trace and replay time by the arbitrary real edge[0,0] + edge[0,1]*q[0] + edge[1,1]*q[1] '
-                  '(any reals, varying per edge and per point; the true value is the subject of O1.cpp_distance); cpp_line and all Contact code are the real ones',
+    h.assume_note('stub: EdgeCpp.cpp_distance(edge, q) is replaced at trace and replay time by the arbitrary real edge[0,0] - q[0] '
+                  '(any real per edge since the first-node coordinates are free, shifted per point; the true value is the subject of O1.cpp_distance); cpp_line and all Contact code are the real ones',
                   'symbolic denominators |b-a|^2 of the candidate edges are assumed non-zero (non-degenerate deformed edges)')
     mesh = M['Mesh'].construct_structured_mesh(nM + 1, 2, [0., float(nM)], [0., 1.])
     coords = onp.asarray(mesh.coords)
@@ -250,7 +250,7 @@ def o1d(h):
     quad = M['QR'].create_quadrature_rule_1D(2)
     xig = [float(x) for x in onp.asarray(quad.xigauss)]
     jconns, jtop, jI = jnp.asarray(conns), jnp.asarray(top), jnp.asarray(surfI)
-    stub = lambda edge, q: edge[0, 0] + edge[0, 1] * q[0] + edge[1, 1] * q[1]
+    stub = lambda edge, q: edge[0, 0] - q[0]
 
     def fn(X, U):
         old = E.cpp_distance
@@ -276,7 +276,7 @@ def o1d(h):
         pre = [v_lt(0.0, _len2(e)) for e in edgesM]
         for q in range(len(xig)):
             p = pts[q]
-            dk = [v_add(e[0][0], v_add(v_mul(e[0][1], p[0]), v_mul(e[1][1], p[1]))) for e in edgesM]
+            dk = [v_sub(e[0][0], p[0]) for e in edgesM]
             chosen = [v_and(v_eq(ce[0][q][0], float(top[k][0])), v_eq(ce[0][q][1], float(top[k][1]))) for k in range(nM)]
             atoms.append(Holds(v_or(*chosen), name='q%d.selected_edge_is_a_candidate' % q))
             for k in range(nM):
@@ -734,6 +734,17 @@ def _hook_gather(ctx, eqn, iv):
             r = v_if((sym.toz(i0) <= k) if k == 0 else (sym.toz(i0) == k), outs[k][e], r)
         out[e] = r
     return out
+
+
+_gather0 = jx.OTHER['gather']
+
+
+def _gather_any(ctx, eqn, iv):
+    r = _hook_gather(ctx, eqn, iv)
+    return _gather0(ctx, eqn, iv) if r is NotImplemented else r
+
+
+jx.OTHER['gather'] = _gather_any     # symbolic-index gathers (x[argmin(..)] under vmap) also outside the nan-tracking context
 
 
 def _nan_ctx(ground=False):
@@ -1293,3 +1304,134 @@ DESIGNED_NOT_REGISTERED = [
      'chain (radius sign lemma per sample, Jacobian sign lemma per edge, goals with those definitions dropped)'),
     ('O1.smooth_distance', 'EdgeCpp.smooth_distance (two-edge smoothed distance) is not part of the C16 statement and is not encoded'),
 ]
+
+
+# ============================================================================================ O6 smoothed two-edge distance (shared with C18)
+SAFE_TOL = 1e-14
+
+
+def _area2(p0, p1, p2):
+    """EdgeCpp.area without the factor 1/2 ... kept WITH the factor: 0.5*(p0x(p1y-p2y) + p1x(p2y-p0y) + p2x(p0y-p1y))"""
+    return v_mul(0.5, v_add(v_add(v_mul(p0[0], v_sub(p1[1], p2[1])), v_mul(p1[0], v_sub(p2[1], p0[1]))), v_mul(p2[0], v_sub(p0[1], p1[1]))))
+
+
+def _sfmin_facts(x, y, e, m):
+    """what C18-O1 establishes for m = SmoothFunctions.min(x, y, e), for ALL real e: never above min, at most max(e, safeTol)/4 below, exact
+    outside the band |x - y| >= e (in particular for e <= 0)"""
+    mn = v_min(x, y)
+    return [v_le(m, mn), v_le(v_sub(mn, m), v_mul(0.25, v_max(e, SAFE_TOL))), v_implies(v_le(e, v_abs(v_sub(x, y))), v_eq(m, mn))]
+
+
+def smooth_distance_obligations(h):
+    """EdgeCpp.smooth_distance(twoEdges, p, smoothingTol) for two GENERAL edges (8 coordinate reals; edges sharing a corner vertex are the
+    special case E0[1] == E1[0] or E1[1] == E0[0]), any point p, smoothingTol > 0:
+      (a) symmetric in the two edges;  (b) with s = -sign(a1+a2) (+1 if zero) and pd_i = (p - cpp(E_i, p)) . n_i:  s*result <= min(s pd0, s pd1),
+      >= that min - max(tol_eff, safeTol)/4 with tol_eff = |n0 x n1| smoothingTol, equal to it outside the band |s pd0 - s pd1| >= tol_eff;
+      the arguments handed to SmoothFunctions.min are exactly (s pd0, s pd1, width) with (c) width >= 0, width = tol_eff (0 if |n0 x n1| <= 1e-14).
+    Cut-lemma chain (DESIGN 4): lemma L on the real SmoothFunctions.min (symmetric, bounds, exactness: for all real eps); goals with, at trace time only,
+    Surface.compute_normal(edge) replaced by an arbitrary unit vector per edge (hash-consed), SmoothFunctions.min replaced by an arbitrary function
+    constrained by the instances of L at the argument triples that occur, and its arguments captured.  Replay runs the un-stubbed code (arguments
+    still captured).  Takes only the harness: registered under C16 here and importable for C18."""
+    import z3
+    M = _mods()
+    E, S = M['EdgeCpp'], M['Surface']
+    from optimism import SmoothFunctions as SF
+    h.encoded(E.smooth_distance, E.cpp, E.area, E.cross, E.dot, SF.min, SF.min_base, S.compute_normal)
+    h.bounds('two general non-degenerate edges E0, E1 (8 reals), point p in R^2, smoothingTol > 0: 11 reals (+ 4 for the two abstracted unit normals); both edge orders')
+    h.outside('degenerate edges', 'rounding', 'the selection of the two edges by Contact.get_closest_two_edges (by (a) their order is immaterial)')
+    h.assume_note('cut: Surface.compute_normal(edge) is replaced at trace time by an arbitrary vector n(edge) with n.n = 1 (one per edge, shared by both edge orders); '
+                  'the true normal is such a vector', 'cut: SmoothFunctions.min is replaced at trace time by an arbitrary function constrained by the instances of '
+                  'the lemma proven in the same obligation on the real SmoothFunctions.min (lemma_smooth_min.*); replay uses the real functions',
+                  'symbolic denominators |b-a|^2 are assumed non-zero (non-degenerate edges)')
+
+    # ---- lemma L on the real SmoothFunctions.min, all real x, y, eps
+    cl = Case(h, lambda x, y, e: (SF.min(x, y, e), SF.min(y, x, e)), dict(x=0.3, y=0.1, e=0.5),
+              sampler=lambda rng: [rng.normal(), rng.normal(), rng.normal() * (1e-14 if rng.uniform() < 0.3 else 1.0)], label='smooth_min')
+
+    def spec_l(i, o):
+        x, y, e = s0(i['x']), s0(i['y']), s0(i['e'])
+        f = _sfmin_facts(x, y, e, s0(o[0]))
+        return [], [Eq(s0(o[0]), s0(o[1]), name='symmetric'), Holds(f[0], name='never_exceeds_min'), Holds(f[1], name='at_most_quarter_width_below_min'),
+                    Holds(f[2], name='exact_outside_band')]
+    cl.prove('lemma_smooth_min', spec_l, cap=60)
+
+    # ---- goals
+    stub = [True]
+    real_normal, real_min = S.compute_normal, SF.min
+
+    def fn(E0, E1, p, tol):
+        caps = []
+
+        def min_wrap(x, y, eps):
+            m = jx.havoc(jnp.stack([x, y, eps]), 'sfmin')[0] if stub[0] else real_min(x, y, eps)
+            caps.append((x, y, eps))
+            return m
+        SF.min = min_wrap
+        if stub[0]:
+            S.compute_normal = lambda edge: jx.havoc(edge, 'nrm')[0]
+        try:
+            r01 = E.smooth_distance(jnp.stack([E0, E1]), p, tol)
+            r10 = E.smooth_distance(jnp.stack([E1, E0]), p, tol)
+            n0, n1 = S.compute_normal(E0), S.compute_normal(E1)
+            pd0, pd1 = E.dot(p - E.cpp(E0, p)[0], n0), E.dot(p - E.cpp(E1, p)[0], n1)
+        finally:
+            S.compute_normal, SF.min = real_normal, real_min
+        assert len(caps) == 2
+        return r01, r10, caps[0], caps[1], pd0, pd1, n0, n1
+    ex = dict(E0=onp.array([[0.0, 0.0], [1.0, 1.0]]), E1=onp.array([[1.0, 1.0], [2.0, 0.5]]), p=onp.array([1.1, 1.2]), tol=0.2)
+
+    def smp(rng):
+        a, b, c_ = rng.normal(size=2), rng.normal(size=2), rng.normal(size=2)
+        if rng.uniform() < 0.5:
+            return [onp.array([a, b]), onp.array([b, c_]), b + 0.3 * rng.normal(size=2), rng.uniform(0.01, 1.0)]
+        return [onp.array([a, b]), onp.array([c_, rng.normal(size=2)]), rng.normal(size=2), rng.uniform(0.01, 1.0)]
+    stub[0] = False
+    jx.validate(fn, [onp.asarray(ex[k], dtype=float) for k in ex], n=4, seed=h.seed, sampler=lambda rng: [onp.asarray(v, dtype=float) for v in smp(rng)])
+    h.fact('translator_validation[smooth_distance]', True, 'ground runs of the un-stubbed function (both edge orders, captured arguments) through JX agree with the real function', nontrivial=False)
+    stub[0] = True
+    c = Case(h, fn, ex, validate=0, label='smooth_distance', jit=False)
+    stub[0] = False
+    lem = []
+    ms = c.ctx.havocs['sfmin']
+    assert len(ms) == 2 and len(c.ctx.havocs['nrm']) == 2, (len(ms), len(c.ctx.havocs['nrm']))
+    for xin, out in ms:
+        lem += [sym.tob(t) for t in _sfmin_facts(xin[0], xin[1], xin[2], out[0])]
+    (a_, ma), (b_, mb) = ms
+    tz = sym.toz
+    lem.append(z3.Implies(z3.And(tz(a_[0]) == tz(b_[1]), tz(a_[1]) == tz(b_[0]), tz(a_[2]) == tz(b_[2])), tz(ma[0]) == tz(mb[0])))     # symmetry of min (+ it is a function)
+    lem.append(z3.Implies(z3.And(tz(a_[0]) == tz(b_[0]), tz(a_[1]) == tz(b_[1]), tz(a_[2]) == tz(b_[2])), tz(ma[0]) == tz(mb[0])))     # it is a function
+    for _, out in c.ctx.havocs['nrm']:
+        lem.append(tz(out[0][0]) * tz(out[0][0]) + tz(out[0][1]) * tz(out[0][1]) == 1)
+
+    def spec(i, o):
+        E0, E1, p, tol = i['E0'], i['E1'], i['p'], s0(i['tol'])
+        r01, r10, c01, c10, pd0, pd1, n0, n1 = o
+        r01, r10, pd0, pd1 = s0(r01), s0(r10), s0(pd0), s0(pd1)
+        asum = v_add(_area2(E0[0], E0[1], E1[0]), _area2(E1[0], E1[1], E0[0]))
+        s = v_if(v_lt(0.0, asum), -1.0, 1.0)
+        x, y = v_mul(s, pd0), v_mul(s, pd1)
+        mn = v_min(x, y)
+        crossN = v_abs(v_sub(v_mul(n0[0], n1[1]), v_mul(n0[1], n1[0])))
+        teff = v_mul(crossN, tol)
+        width = v_if(v_lt(SAFE_TOL, crossN), teff, 0.0)
+        sc = v_add(1.0, v_add(v_abs(pd0), v_abs(pd1)))
+        atoms = [Eq(r01, r10, name='a.symmetric_in_the_two_edges', scale=sc),
+                 Holds([v_le(0.0, s0(c01[2])), v_le(0.0, s0(c10[2]))], name='c.width_handed_to_smooth_min_is_nonnegative')]
+        for tag, r, cp, xx, yy in (('[E0,E1]', r01, c01, x, y), ('[E1,E0]', r10, c10, y, x)):
+            sr = v_mul(s, r)
+            atoms += [
+                Eq([s0(cp[0]), s0(cp[1])], [xx, yy], name='b.%s.smooth_min_gets_the_oriented_projected_distances' % tag, scale=sc),
+                Eq(s0(cp[2]), width, name='b.%s.width_is_abs_cross_of_normals_times_tol' % tag, scale=tol),
+                Le(sr, mn, name='b.%s.never_exceeds_oriented_min' % tag, scale=sc),
+                Le(v_sub(mn, v_mul(0.25, v_max(teff, SAFE_TOL))), sr, name='b.%s.at_most_quarter_width_below' % tag, scale=sc),
+                Eq(sr, mn, when=v_le(teff, v_abs(v_sub(x, y))), name='b.%s.exact_outside_band' % tag, scale=sc),
+            ]
+        return [v_lt(0.0, _len2(E0)), v_lt(0.0, _len2(E1)), v_lt(0.0, tol)], atoms
+    c.prove('smooth_distance', spec, cap=200 if h.thorough() else 60, extra_assumes=lem)
+
+
+@obligation(P, 'O6.smooth_distance', cap=400)
+def o6(h):
+    """EdgeCpp.smooth_distance: symmetric in its two edges, one-sided quarter-width approximation of the oriented min of the two projected distances,
+    non-negative smoothing width (see smooth_distance_obligations; the same function is registered under C18)"""
+    smooth_distance_obligations(h)
